@@ -98,6 +98,7 @@ type runner struct {
 	priPosPrev map[string]ltx.Pos         // primary positions after the previous event (loop mode)
 	priPrevName string
 	restores  int
+	recreateRolledBack map[string]bool // databases whose re-creation was started and rolled back (an empty database file may exist)
 }
 
 type frameRec struct {
@@ -632,6 +633,29 @@ func (r *runner) apply(ev string) bool {
 				return r.recreate(p, f[1], false)
 			}
 		}
+	case "createrb":
+		// the application starts to create the database again and rolls its first transaction back (synchronous=OFF:
+		// the journal header is valid at once) - nothing may change, and late joiners must still be served
+		if p := r.c.Primary(); p != nil {
+			if d := p.DB(f[1]); d != nil && d.PageN() == 0 {
+				before := d.Pos()
+				conn := pager.NewConn(p.M, f[1], r.nextOwner(), r.cfg.PageSize)
+				conn.Det = true
+				res := conn.RunRTx(pager.RTx{Create: true, NewSize: 2, SyncMode: 2, Final: "DELETE", Outcome: "rollback"}, nil)
+				conn.Close()
+				if r.recreateRolledBack == nil {
+					r.recreateRolledBack = map[string]bool{}
+				}
+				r.recreateRolledBack[f[1]] = true
+				if res.Err != nil {
+					r.viol("C02/op-error/recreate-rollback", "rolling back the first transaction of re-created database %q failed at %q: %v", f[1], res.ErrStep, res.Err)
+					return false
+				}
+				if d.Pos() != before {
+					r.viol("C15/recreate-rollback-moved", "a rolled-back re-creation of %q moved its position %s -> %s", f[1], before, d.Pos())
+				}
+			}
+		}
 	case "createps":
 		if p := r.c.Primary(); p != nil {
 			if d := p.DB(f[1]); d == nil || d.PageN() == 0 {
@@ -899,7 +923,10 @@ func (r *runner) quiesceAndCheck(ev string) bool {
 						}
 					}
 					for _, fn := range []string{"database", "journal", "wal", "shm"} {
-						if _, err := os.Stat(filepath.Join(db.Path(), fn)); err == nil {
+						if fi, err := os.Stat(filepath.Join(db.Path(), fn)); err == nil {
+							if fn == "database" && fi.Size() == 0 && r.recreateRolledBack[db.Name()] {
+								continue // the empty file an application created and then gave up on (createrb), not a left-over of the drop
+							}
 							r.viol("C15/file-left-after-drop/"+fn, "%s/%s: file %q still exists although the database has zero pages at %s", name, db.Name(), fn, db.Pos())
 						}
 					}
@@ -1004,6 +1031,9 @@ func (r *runner) enabled() []string {
 			}
 			if has("createps") && p.DB(db) != nil && db == "a" {
 				out = append(out, "createps:"+db)
+			}
+			if has("createrb") && p.DB(db) != nil && db == "a" {
+				out = append(out, "createrb:"+db)
 			}
 			continue
 		}
